@@ -71,10 +71,17 @@ func (o *labelOracle) OnWrite(s *Sim, w *Write) {
 	if !podRevisionMatches(np, br.Status.UpdateRevision) {
 		s.Violate("C12", "L1-target", "L1/revision/"+fam, w.Seq, "batch label (%s,%s) given to pod %s which is not of the update revision %s (labels %v)", rid, np.Labels[v1beta1.RolloutBatchIDLabel], w.Key.Name, br.Status.UpdateRevision, np.Labels)
 	}
+	// what this reconcile knew about the pod (decisions are judged against reads; a stale cache is not a decision)
+	asRead := op
+	if t := s.cur; t != nil {
+		if rr, ok := t.LastRead[w.Key]; ok && rr.Found {
+			asRead = rr.Obj.(*corev1.Pod)
+		}
+	}
 	// L3: a pod already labelled for this release is never relabelled
-	if op.Labels[v1beta1.RolloutIDLabel] == rid && op.Labels[v1beta1.RolloutBatchIDLabel] != "" && op.Labels[v1beta1.RolloutBatchIDLabel] != np.Labels[v1beta1.RolloutBatchIDLabel] {
-		if _, err := strconv.Atoi(op.Labels[v1beta1.RolloutBatchIDLabel]); err == nil {
-			s.Violate("C12", "L3-relabel", "L3/"+fam, w.Seq, "pod %s already carried (%s, batch %s) and was relabelled to batch %s", w.Key.Name, rid, op.Labels[v1beta1.RolloutBatchIDLabel], np.Labels[v1beta1.RolloutBatchIDLabel])
+	if asRead.Labels[v1beta1.RolloutIDLabel] == rid && asRead.Labels[v1beta1.RolloutBatchIDLabel] != "" && asRead.Labels[v1beta1.RolloutBatchIDLabel] != np.Labels[v1beta1.RolloutBatchIDLabel] {
+		if n, err := strconv.Atoi(asRead.Labels[v1beta1.RolloutBatchIDLabel]); err == nil && n >= 1 && n <= len(br.Spec.ReleasePlan.Batches) {
+			s.Violate("C12", "L3-relabel", "L3/"+fam, w.Seq, "pod %s already carried (%s, batch %s) when the controller read it and was relabelled to batch %s", w.Key.Name, rid, asRead.Labels[v1beta1.RolloutBatchIDLabel], np.Labels[v1beta1.RolloutBatchIDLabel])
 		}
 	}
 	// L2: budget of the batch
@@ -88,10 +95,14 @@ func (o *labelOracle) OnWrite(s *Sim, w *Write) {
 		return // rollback in batches and rescaled workloads use other budgets; not judged here
 	}
 	n := 0
-	if wl := s.Store.Peek(ObjKey{GK: workloadGK(o.sc), NS: o.sc.NS, Name: o.sc.Name}); wl != nil {
-		_, n, _ = s.exposure(wl)
-		if d, ok := wl.(*appsv1.Deployment); ok {
-			n = int(*d.Spec.Replicas)
+	if t := s.cur; t != nil {
+		if rr, ok := t.LastRead[ObjKey{GK: workloadGK(o.sc), NS: o.sc.NS, Name: o.sc.Name}]; ok && rr.Found {
+			switch wl := rr.Obj.(type) {
+			case *appsv1.Deployment:
+				n = int(*wl.Spec.Replicas)
+			case *kruisev1alpha1.CloneSet:
+				n = int(*wl.Spec.Replicas)
+			}
 		}
 	}
 	if n == 0 {
@@ -104,16 +115,36 @@ func (o *labelOracle) OnWrite(s *Sim, w *Write) {
 	if inc < 0 {
 		inc = 0
 	}
+	// pods carrying (rollout-id, batch) as this reconcile knows them: its reads plus its own writes so far
+	t := s.cur
+	if t == nil {
+		return
+	}
+	if t.Notes == nil {
+		t.Notes = map[ObjKey]string{}
+	}
+	t.Notes[w.Key] = fmt.Sprint(bid)
 	count := 0
-	for _, k := range s.Store.Keys(gkPod) {
-		p := s.Store.Peek(k).(*corev1.Pod)
-		if k.NS == o.sc.NS && p.DeletionTimestamp == nil && p.Labels[v1beta1.RolloutIDLabel] == rid && p.Labels[v1beta1.RolloutBatchIDLabel] == fmt.Sprint(bid) && podRevisionMatches(p, br.Status.UpdateRevision) {
+	for k, rr := range t.LastRead {
+		if k.GK != gkPod || !rr.Found {
+			continue
+		}
+		p := rr.Obj.(*corev1.Pod)
+		if p.DeletionTimestamp != nil {
+			continue
+		}
+		b := p.Labels[v1beta1.RolloutBatchIDLabel]
+		id := p.Labels[v1beta1.RolloutIDLabel]
+		if nb, ok := t.Notes[k]; ok {
+			b, id = nb, rid
+		}
+		if id == rid && b == fmt.Sprint(bid) {
 			count++
 		}
 	}
 	s.probe("c12.budget-checks")
 	if count > inc+slack(n) {
-		s.Violate("C12", "L2-budget", "L2/over/"+fam, w.Seq, "%d pods carry (%s, batch %d) but batch %d adds only %d pods under the plan (%d replicas)", count, rid, bid, bid, inc, n)
+		s.Violate("C12", "L2-budget", "L2/over/"+fam, w.Seq, "%d pods carry (%s, batch %d) as far as this reconcile knows, but batch %d adds only %d pods under the plan (%d replicas)", count, rid, bid, bid, inc, n)
 	}
 }
 
@@ -199,6 +230,9 @@ func (o *deployOracle) OnWrite(s *Sim, w *Write) {
 	fam := o.sc.Family
 	isNew := rutil.EqualIgnoreHash(&nrs.Spec.Template, &d.Spec.Template)
 	limit := partitionLimit(st.Partition, n)
+	if isNew && before == 0 && after == 1 {
+		fam += "/new-rs-lower-bound" // the controller always gives the new ReplicaSet at least one replica
+	}
 	var newSpec, oldSum, total int32
 	for _, rs := range rss {
 		r := *rs.Spec.Replicas
@@ -216,9 +250,6 @@ func (o *deployOracle) OnWrite(s *Sim, w *Write) {
 	}
 	if surge == 0 && unavail == 0 {
 		unavail = 1
-	}
-	if w.Old == nil && after == 1 && limit == 0 {
-		fam += "/new-rs-lower-bound"
 	}
 	switch {
 	case isNew && after > before:
